@@ -17,7 +17,8 @@
 (*        what the first pass delivered (any in-memory value)              *)
 (* Conformance tags (the reference says more than the statement)           *)
 (*   norm:<kind>         x1 is not the documented normal form of x         *)
-(*   parse-class:<kind>  object/error differs from the req/opt tags        *)
+(*   parse-class:<kind>  object/error differs from the req/opt tags and the *)
+(*                       rule that a header needs its two time fields      *)
 (***************************************************************************)
 EXTENDS WireCodec, TLC, Json
 
@@ -82,10 +83,10 @@ JudgeRoundTrip(e) ==
 
 JudgeParse(e) ==
   LET k == e.kind
-      ref == ParseRef(k, ToSet(e.present), ToSet(e.hpresent), [i \in 1..Len(e.txs) |-> ToSet(e.txs[i])])
+      ref == ParseRef(k, ToSet(e.present), ToSet(e.hpresent), [i \in 1..Len(e.txs) |-> ToSet(e.txs[i])], e.tv)
   IN  (IF e.res = "panic" THEN <<"Inv.Total.panic:" \o k \o ":" \o e.where>>
        ELSE IF e.res = "neither" THEN <<"Inv.Total.neither:" \o k>>
-       ELSE (IF e.src = "presence" /\ e.tv = "valid" THEN Tag(e.res = ref, "parse-class:" \o k) ELSE <<>>)) \o
+       ELSE (IF e.src = "presence" THEN Tag(e.res = ref, "parse-class:" \o k) ELSE <<>>)) \o
       (IF e.res = "object"
          THEN PanicTag(k, e.pass1) \o
               (IF e.pass1.res \in {"panic", "marshal-panic"} THEN <<>>
